@@ -303,6 +303,11 @@ def c10_7(ctx):
         if not ok:
             ctx.fail(fn, r_, 'the period branch of drange exits with `%s`: dates of a tenor are produced only by rrule (single forward unit) or by iterating dt_bump from the running date; a step measured once is wrong as soon as a month/quarter/year/business-day part is present' % U(v)[:100],
                      witness="drange(dt(2020,1,31), dt(2020,6,1), '1m1d')")
+    for c in calls_in(ast.Module(body, []), 'dt_bump'):       # the tenor is handed to dt_bump whole, every time
+        ctx.count(1)
+        if len(c.args) != 2 or U(c.args[1]) != fn.params[2] or c.keywords:
+            ctx.fail(fn, c, 'drange steps with `%s`: the tenor must be passed to dt_bump as it is (dt_bump tokenises it left to right itself; a pre-split or partial tenor steps by something else)' % U(c),
+                     witness="drange(t0, t1, '1m1d')")
     for c in calls_in(ast.Module(body, []), 'drange'):
         ctx.fail(fn, c, 'the period branch re-enters drange with a derived bump (`%s`)' % U(c)[:80])
 
